@@ -65,43 +65,51 @@ type Clause struct {
 	File  string
 }
 
+type OrderExcept struct {
+	Callees map[string]bool
+	Reason  string
+}
+
 // Contract is the //@ block of one function.
 type Contract struct {
-	Target      string // as written
-	PkgPath     string
-	Props       []string
-	Requires    []*Clause
-	Ensures     []*Clause
-	Returns     []*Clause // checked at every return with locals visible; never assumed by callers
-	Assigns     []*SpecExpr
-	HasAssign   bool
-	Fresh       bool // may allocate
-	Invs        map[int][]*Clause
-	Decreases   map[int]*Clause
+	Target    string // as written
+	PkgPath   string
+	Props     []string
+	Requires  []*Clause
+	Ensures   []*Clause
+	Returns   []*Clause // checked at every return with locals visible; never assumed by callers
+	Assigns   []*SpecExpr
+	HasAssign bool
+	Fresh     bool // may allocate
+	Invs      map[int][]*Clause
+	Decreases map[int]*Clause
 	// OrderAssumed: "loop N: order_assumed <reason>": the order-independence of map-range loop N is not
 	// checked (C06); the reason is reported among the unchecked assumptions
 	OrderAssumed map[int]string
 	// OrderAssumedExpr: "maprange <ranged expression>: order_assumed <reason>" (keyed by the text of the
 	// ranged expression, so that adding or removing other loops does not move the assumption)
 	OrderAssumedExpr map[string]string
-	Variant     *Clause // function-level "decreases e": termination measure for (mutually) recursive calls
-	Guarded     []*GuardClause
-	SortKeys    []*Clause // "sortkey e($elem)": the key by which the function's sort.Slice call orders its slice
-	Sites       []*Clause
-	ExitsIf     []*Clause
-	PanicsIf    []*Clause
-	Pure        bool
-	Trusted     bool // contract assumed, body not verified (stated in evidence)
-	NoInline    bool
-	Safety      map[string]bool
-	Binding     string // for funcmap entries: "is strings.TrimSpace"
-	File        string
-	Line        int
-	Fn          *FuncInfo
-	Lets        []Binder // local abbreviations: name = expr text (Type field holds the expression)
-	LetExprs    map[string]*SpecExpr
-	ErrDrop     bool
-	bindingExpr ast.Expr
+	// OrderExceptExpr: "maprange <expr>: order_except F, G: <reason>": the loop is checked, but what the
+	// rule cannot establish about the listed calls of the loop body is assumed (and reported as such)
+	OrderExceptExpr map[string]*OrderExcept
+	Variant         *Clause // function-level "decreases e": termination measure for (mutually) recursive calls
+	Guarded         []*GuardClause
+	SortKeys        []*Clause // "sortkey e($elem)": the key by which the function's sort.Slice call orders its slice
+	Sites           []*Clause
+	ExitsIf         []*Clause
+	PanicsIf        []*Clause
+	Pure            bool
+	Trusted         bool // contract assumed, body not verified (stated in evidence)
+	NoInline        bool
+	Safety          map[string]bool
+	Binding         string // for funcmap entries: "is strings.TrimSpace"
+	File            string
+	Line            int
+	Fn              *FuncInfo
+	Lets            []Binder // local abbreviations: name = expr text (Type field holds the expression)
+	LetExprs        map[string]*SpecExpr
+	ErrDrop         bool
+	bindingExpr     ast.Expr
 }
 
 // Define is a spec-level macro or uninterpreted spec function.
@@ -463,14 +471,31 @@ func (w *World) parseBlock(p *packages.Package, path string, b *rawBlock) error 
 				return fmt.Errorf("line %d: loop clause must be invariant, decreases or order_assumed", lineNo)
 			}
 		case "maprange":
-			colon := strings.Index(rest, ": order_assumed")
-			if colon < 0 {
-				return fmt.Errorf("line %d: maprange clause must be 'maprange <expr>: order_assumed <reason>'", lineNo)
+			// maprange <expr>: order_assumed <reason>  |  maprange <expr>: order_except F, G, ...: <reason>
+			if colon := strings.Index(rest, ": order_assumed"); colon >= 0 {
+				if c.OrderAssumedExpr == nil {
+					c.OrderAssumedExpr = map[string]string{}
+				}
+				c.OrderAssumedExpr[strings.TrimSpace(rest[:colon])] = strings.TrimSpace(rest[colon+len(": order_assumed"):])
+			} else if colon := strings.Index(rest, ": order_except"); colon >= 0 {
+				r2 := strings.TrimSpace(rest[colon+len(": order_except"):])
+				c2 := strings.Index(r2, ":")
+				if c2 < 0 {
+					return fmt.Errorf("line %d: 'maprange <expr>: order_except F, G: <reason>' needs a reason", lineNo)
+				}
+				ex := &OrderExcept{Reason: strings.TrimSpace(r2[c2+1:]), Callees: map[string]bool{}}
+				for _, n := range strings.Split(r2[:c2], ",") {
+					if n = strings.TrimSpace(n); n != "" {
+						ex.Callees[n] = true
+					}
+				}
+				if c.OrderExceptExpr == nil {
+					c.OrderExceptExpr = map[string]*OrderExcept{}
+				}
+				c.OrderExceptExpr[strings.TrimSpace(rest[:colon])] = ex
+			} else {
+				return fmt.Errorf("line %d: maprange clause must be 'maprange <expr>: order_assumed <reason>' or 'maprange <expr>: order_except F, G: <reason>'", lineNo)
 			}
-			if c.OrderAssumedExpr == nil {
-				c.OrderAssumedExpr = map[string]string{}
-			}
-			c.OrderAssumedExpr[strings.TrimSpace(rest[:colon])] = strings.TrimSpace(rest[colon+len(": order_assumed"):])
 		case "site":
 			// site NAME: expr
 			colon := strings.Index(rest, ":")
